@@ -316,9 +316,18 @@ def _top_map(doc, g, values, points, rng, res, rts, viol, kw0) -> None:
                 failed = [it for it in out["items"] if it["status"] == "failed"]
                 if not failed:
                     viol.append((f"{label}:no_failed_item_although_fault_fired", {}))
-                for it in failed:
-                    if not any(it["err_obj"] is x for x in rt.raised.get(0, [])):
-                        viol.append((f"{label}:item_error_is_not_the_injected_object", {"got": it["error"]}))
+                injected = [it for it in failed if any(it["err_obj"] is x for x in rt.raised.get(0, []))]
+                others = [it for it in failed if it not in injected]
+                # every item in whose run the fault fired fails, and carries an injected object
+                hit_items = {rt.labels.get(f["key"].split("/")[0], ((),))[0] for f in rt.fired}  # top-level item runs in which the fault fired
+                if len(injected) != len(hit_items):
+                    viol.append((f"{label}:item_error_is_not_the_injected_object", {"items_with_injected_error": len(injected), "items_hit_by_the_fault": len(hit_items), "other_errors": [it["error"] for it in others][:3]}))
+                for it in others:
+                    # an item the fault did not hit may only fail for the caller's own reason: a selected output that
+                    # its (fault-free) run did not produce, with on_missing="error"
+                    legit = doc.get("explicit_select") and it["error"] and it["error"][0] == "ValueError" and "Requested outputs not found" in str(it["error"][1])
+                    if not legit:
+                        viol.append((f"{label}:item_failed_with_unexpected_error", {"got": it["error"]}))
 
 
 def shrink_candidates(doc: dict):
